@@ -360,8 +360,8 @@ const ruleC16 = "generated histories over 2-4 logs, both storages; after every r
 
 var profC16 = vlib.Profile{
 	Prop: "C16", MinLogs: 2, MaxLogs: 4, MinOps: 3, MaxOps: 20,
-	Storages: []string{"mem", "sql"}, MaxJump: 200, OtherLogPct: 50, Decorate: 10, SharedKeys: true, NonCanonPct: 5,
-	Weights: map[string]int{"grow": 40, "refresh": 8, "fork": 8, "wrongold": 6, "badproof": 10, "garbage": 6, "wrongkey": 8, "wrongorigin": 4, "unknownlog": 3, "smaller": 3, "decorated": 4},
+	Storages: []string{"mem", "sql"}, MaxJump: 200, OtherLogPct: 50, Decorate: 25, SharedKeys: true, NonCanonPct: 5, MaxJunkSigs: 90,
+	Weights: map[string]int{"grow": 40, "refresh": 10, "fork": 8, "wrongold": 6, "badproof": 10, "garbage": 6, "wrongkey": 8, "wrongorigin": 4, "unknownlog": 3, "smaller": 3, "decorated": 8, "zero": 6},
 }
 
 type rtFunc func(*http.Request) (*http.Response, error)
@@ -395,6 +395,7 @@ func runC16(c *vlib.HistCase) (bool, []string, error) {
 	ctx := context.Background()
 
 	acceptedLogs := map[string]bool{}
+	lastAccepted := map[string][]byte{} // the truth: what the last accepted update returned
 	grown := map[string]bool{}
 	refusedFirst := map[string]bool{}
 	nontrivial := false
@@ -407,13 +408,18 @@ func runC16(c *vlib.HistCase) (bool, []string, error) {
 					grown[st.Req.LogID] = true
 				}
 				acceptedLogs[st.Req.LogID] = true
+				lastAccepted[st.Req.LogID] = st.Out
 			} else if st.Req.LogIdx >= 0 && !st.PreHeld.Present {
 				refusedFirst[st.Req.LogID] = true
 			}
 		}
 		ids := append(append([]string{}, e.LogIDs...), vlib.UnknownLogID, strings.Repeat("ab", 32))
 		for _, id := range ids {
-			want, werr := t.W.GetCheckpoint(id)
+			want, held := lastAccepted[id]
+			var werr error
+			if !held {
+				werr = errors.New("nothing accepted yet")
+			}
 			code, body, _ := serve("GET", fmt.Sprintf(api.HTTPGetCheckpoint, id))
 			cb, cerr := cl.GetLatestCheckpoint(ctx, id)
 			if werr == nil {
